@@ -10,10 +10,10 @@ ROOTS = list(bridge.GEN_ROOTS) + [FROM_CONFIG]
 ASSUMPTIONS = [
     "relational, inside one symbolic run: the backend is built by the real Rasn::from_config (derive merging, parse_rust_derive_annotation through nom) from a Config whose four boolean options are free solver variables; generate_module runs from real MIR on the natively linked IR of a fixed module pair; every path is compared item by item with the projection obtained under the default configuration transformed by an independent reference for each documented option",
     "custom_imports in {none, one, several}, type_annotations in {default, extra derives, extra non-derive attribute, required and additional derives listed twice (adjacent, non-adjacent, inside one line), empty}",
-    "the modules contain a CHOICE with duplicate and unique payload types, IMPORTS clauses that mix type and value references (a value reference first, in the middle), a SEQUENCE with DEFAULT, a LazyLock static and a const",
+    "the modules contain module-qualified type references (component, element, alias), a CHOICE with duplicate and unique payload types, IMPORTS clauses that mix type and value references (a value reference first, in the middle), a SEQUENCE with DEFAULT, a LazyLock static and a const",
 ]
 TEXT = ("M DEFINITIONS AUTOMATIC TAGS ::= BEGIN IMPORTS Tb, max-w, Tc FROM Mb depth-c, Td FROM Mc; C ::= CHOICE { a INTEGER, b BOOLEAN, c INTEGER, d Tb, e SEQUENCE { k NULL } } "
-        "S ::= SEQUENCE { x INTEGER DEFAULT 5, y C OPTIONAL, z Tc OPTIONAL, u Td OPTIONAL } D ::= CHOICE { p BOOLEAN, q BOOLEAN } v INTEGER ::= 7 w BOOLEAN ::= TRUE END\n"
+        "S ::= SEQUENCE { x INTEGER DEFAULT 5, y C OPTIONAL, z Tc OPTIONAL, u Td OPTIONAL, qa Mb.Tc OPTIONAL, qb SEQUENCE OF Mc.Td OPTIONAL } Q ::= Mb.Tb D ::= CHOICE { p BOOLEAN, q BOOLEAN } v INTEGER ::= 7 w BOOLEAN ::= TRUE END\n"
         "Mb DEFINITIONS AUTOMATIC TAGS ::= BEGIN Tb ::= NULL max-w INTEGER ::= 9 Tc ::= BOOLEAN Te ::= ENUMERATED { r, g } END\n"
         "Mc DEFINITIONS AUTOMATIC TAGS ::= BEGIN depth-c INTEGER ::= 3 Td ::= BOOLEAN END")
 DEFAULT_ANN = '#[derive(AsnType, Debug, Clone, Decode, Encode, PartialEq, Eq, Hash)]'
